@@ -3,6 +3,8 @@
 //! CA A = the configured one and CA B = "another CA"; the self-signed certificate is made with rcgen).
 //!   tls <client identity> <server identity>
 //!   tls noexp noexp      both sides use a set made by the bundled generator with `--no-expiry`
+//!   tls rotate <n>       CA rotation: see `rotate`
+//! Throughout, the platform trust store (SSL_CERT_FILE / SSL_CERT_DIR) holds CA B only.
 //! Implementation line: `accept` (connected and a publisher registration was acknowledged) or `refuse`.
 use crate::e2e::*;
 use crate::util::*;
@@ -122,11 +124,62 @@ async fn attempt_with(addr: SocketAddr, a: &Certs, b: &Certs, selfsigned: &(Path
     }
 }
 
+fn pem_of(der: &[u8]) -> String {
+    let mut pem = String::from("-----BEGIN CERTIFICATE-----\n");
+    let e = b64(der);
+    for line in e.as_bytes().chunks(64) { pem.push_str(std::str::from_utf8(line).unwrap()); pem.push('\n'); }
+    pem.push_str("-----END CERTIFICATE-----\n");
+    pem
+}
+
+/// `tls rotate <n>`: the server is restarted with a different CA (same certificate and key, `--ca` now names CA B) while
+/// a client certified by the old CA A keeps its TLS state - one client configuration, hence one session cache, used for
+/// both connections. First a full handshake with the server that still trusts A (accepted, tickets received), then the
+/// same configuration against the restarted server: it must be refused, n times over.
+async fn rotate(addr_old: SocketAddr, addr_new: SocketAddr, a: &Certs, n: usize, topic: &str) -> String {
+    let r = async {
+        let mut roots = rustls::RootCertStore::empty();
+        roots.add(&rustls::Certificate(std::fs::read(a.client("ca.der"))?))?;
+        let mut crypto = rustls::ClientConfig::builder().with_safe_defaults().with_root_certificates(roots)
+            .with_client_auth_cert(vec![rustls::Certificate(std::fs::read(a.client("localhost.der"))?)], rustls::PrivateKey(std::fs::read(a.client("localhost.key.der"))?))?;
+        crypto.alpn_protocols = vec![b"hq-29".to_vec()];
+        let cc = quinn::ClientConfig::new(std::sync::Arc::new(crypto));
+        let mut endpoint = quinn::Endpoint::client("127.0.0.1:0".parse().unwrap())?;
+        endpoint.set_default_client_config(cc);
+        let register = |conn: quinn::Connection, topic: String| async move {
+            let mut s = raw_stream(&conn).await?;
+            s.send(Frame::RegisterPublisher(PublisherPayload { topic: TopicName::try_from(topic.as_str())?, retention_policy: 0, operations: vec![] })).await?;
+            match s.next().await { Some(Ok(Frame::Ok)) => { conn.close(0u32.into(), b"done"); Ok::<_, anyhow::Error>(()) }, other => anyhow::bail!("answer {other:?}") }
+        };
+        // the old server: accepted (otherwise the scenario is void)
+        let conn = endpoint.connect(addr_old, "localhost")?.await?;
+        register(conn, topic.to_string()).await.map_err(|e| anyhow::anyhow!("the old server refused its own client: {e}"))?;
+        tokio::time::sleep(Duration::from_millis(150)).await;
+        let mut accepted = 0;
+        for _ in 0..n {
+            let attempt = async { let conn = endpoint.connect(addr_new, "localhost")?.await?; register(conn, topic.to_string()).await };
+            if let Ok(Ok(())) = tokio::time::timeout(Duration::from_secs(6), attempt).await { accepted += 1; }
+        }
+        Ok::<_, anyhow::Error>(if accepted == 0 { "refuse".to_string() } else { "accept".to_string() })
+    };
+    match tokio::time::timeout(Duration::from_secs(40), r).await { Ok(Ok(s)) => s, Ok(Err(e)) => format!("void:{}", format!("{e}").replace(' ', "_").chars().take(80).collect::<String>()), Err(_) => "void:timeout".into() }
+}
+
 pub fn run(cfg: &Cfg) {
     let mut out = Out::new(&cfg.out, "e2etls");
     let rt = runtime();
     let a = Certs::generate(&scratch_dir("tlsA")).expect("certificates A");
     let b = Certs::generate(&scratch_dir("tlsB")).expect("certificates B");
+    // the machine's own trust store (what OpenSSL-style tooling and `rustls-native-certs` consult) holds "another CA" and
+    // nothing else: whom a selium peer trusts is what it was configured with, never what the platform happens to trust
+    {
+        let d = scratch_dir("tlsP");
+        let _ = std::fs::create_dir_all(d.join("empty"));
+        let bundle = d.join("platform-roots.pem");
+        std::fs::write(&bundle, pem_of(&std::fs::read(b.client("ca.der")).expect("CA B"))).expect("platform bundle");
+        std::env::set_var("SSL_CERT_FILE", &bundle);
+        std::env::set_var("SSL_CERT_DIR", d.join("empty"));
+    }
     let ss = self_signed(&scratch_dir("tlsS")).expect("self-signed");
     let bun = bundle(&scratch_dir("tlsS"), &a, &b).expect("bundle");
     // server "trusted": CA A verifies clients, presents A's server certificate;
@@ -151,6 +204,8 @@ pub fn run(cfg: &Cfg) {
         r.expect("second generator run");
     }
     let addr_r = rt.block_on(async { start_server(&rr).expect("server R") });
+    // CA rotation: the same server certificate and key, restarted with `--ca` naming CA B
+    let addr_rot = rt.block_on(async { start_server_with(&b.server("ca.der"), &a.server("localhost.der"), &a.server("localhost.key.der")).expect("server rotated") });
     let mut cases: Vec<String> = vec![];
     if let Some(lines) = cfg.replay_lines() { cases = lines; } else {
         cases.push("tls noexp noexp".into());
@@ -165,12 +220,14 @@ pub fn run(cfg: &Cfg) {
         cases.push("tls wrongca trusted".into());
         cases.push("tls trusted trusted".into());
         cases.push("tls wrongca trusted".into());
+        cases.push("tls rotate 3".into());
     }
     for (i, c) in cases.iter().enumerate() {
         let t: Vec<&str> = c.split(' ').collect();
         let addr = if t[2] == "trusted" { addr_t } else if t[2] == "noexp" { addr_n } else { addr_o };
         let topic = format!("/verif/tls{i}");
-        let res = if t[1] == "noexp" { rt.block_on(attempt(addr, &ne, &b, &ss, &bun, "trusted", &topic)) }
+        let res = if t[1] == "rotate" { rt.block_on(rotate(addr_t, addr_rot, &a, t[2].parse().unwrap_or(1), &topic)) }
+            else if t[1] == "noexp" { rt.block_on(attempt(addr, &ne, &b, &ss, &bun, "trusted", &topic)) }
             else if t[1] == "rerun" {
                 // the client half written by the second run
                 let c2 = Certs { dir: rr.dir.clone() };
@@ -189,12 +246,13 @@ pub fn run(cfg: &Cfg) {
             else if t[1] == "lapsedself" { rt.block_on(attempt_with(addr, &a, &b, &ss, &bun, "explicit", &topic, Some(&old[0]))) }
             else if t[1] == "lapsedother" { rt.block_on(attempt_with(addr, &a, &b, &ss, &bun, "explicit", &topic, Some(&old[1]))) }
             else { rt.block_on(attempt(addr, &a, &b, &ss, &bun, t[1], &topic)) };
-        let want = if t[1] == "rerun" { "accept" } else if (t[1] == "trusted" || t[1] == "bundle" || t[1] == "noexp") && (t[2] == "trusted" || t[2] == "noexp") && (t[1] == "noexp") == (t[2] == "noexp") { "accept" } else { "refuse" };
+        let want = if t[1] == "rotate" { "refuse" } else if t[1] == "rerun" { "accept" } else if (t[1] == "trusted" || t[1] == "bundle" || t[1] == "noexp") && (t[2] == "trusted" || t[2] == "noexp") && (t[1] == "noexp") == (t[2] == "noexp") { "accept" } else { "refuse" };
         let mon = if res == want { Ok(()) } else { Err(format!("C15: client identity {} against server identity {}: {res}, must {want}", t[1], t[2])) };
         out.stat(&format!("client_{}", t[1]));
         out.case(c, &res, mon);
     }
     let _ = std::fs::remove_dir_all(scratch_dir("tlsL"));
+    let _ = std::fs::remove_dir_all(scratch_dir("tlsP"));
     for d in [&a.dir, &b.dir, &ne.dir, &rr.dir] { let _ = std::fs::remove_dir_all(d); }
     let _ = std::fs::remove_dir_all(scratch_dir("tlsS"));
     out.finish();
